@@ -263,6 +263,10 @@ ConnLost(e) ==
 RECURSIVE ObsStep(_, _)
 ObsStep(o, e) ==
   CASE e.ev = "reset" -> OReset(o, e)
+    \* a rebalance that does not settle: the n-th REBALANCE_IN_PROGRESS answer to the JoinGroup / SyncGroup requests of one
+    \* Consume call - the code backs off and retries Rebalance.Retry.Max times, then Consume returns the error
+    [] e.ev \in {"join_resp", "sync_resp"} /\ "n" \in DOMAIN e /\ e.n > e.max ->
+         [o EXCEPT !.bad = {"rebalance_within_retry_budget"}]
     [] ConnLost(e) /\ ~o.connlost[e.c] -> ObsStep([o EXCEPT !.connlost[e.c] = TRUE], e)
     [] o.hung /\ e.ev # "reset" -> [o EXCEPT !.bad = IF e.ev = "hang" THEN {HangClause(o, e)} ELSE {}]
     [] e.ev = "consume_call" -> OConsumeCall(o, e)
